@@ -475,29 +475,23 @@ theorem body_success : body r = true := by
     subst hEE
     clear hempty hd'
     generalize hN : (if mem = true then max (a1 + k - d) (if dr > 0 then X + k - d else 0)
-      else if single = true then if a1 ≥ d then 1 else 0 else a1 + k - d) = N at *
+      else a1 + k - d) = N at *
     have hNspec : (mem = true → N ≥ a1 + k - d ∧ (¬ dr > 0 → N = a1 + k - d)) ∧
-        (mem = false → single = true → (a1 ≥ d → N = 1) ∧ (a1 < d → N = 0)) ∧
-        (mem = false → single = false → N = a1 + k - d) := by
+        (mem = false → N = a1 + k - d) := by
       subst hN
-      refine ⟨?_, ?_, ?_⟩
+      refine ⟨?_, ?_⟩
       · intro hm
         simp only [hm, if_true]
         refine ⟨by omega, ?_⟩
         intro hdr
         simp only [hdr, if_false]
         omega
-      · intro hm hs
-        simp only [hm, hs, if_true, if_false, Bool.false_eq_true]
-        constructor
-        · intro h; rw [if_pos h]
-        · intro h; rw [if_neg (by omega)]
-      · intro hm hs
-        simp only [hm, hs, if_false, Bool.false_eq_true]
+      · intro hm
+        simp only [hm, if_false, Bool.false_eq_true]
     clear hN
-    obtain ⟨hN1, hN2, hN3⟩ := hNspec
+    obtain ⟨hN1, hN3⟩ := hNspec
     cases dro <;> cases mem <;> cases single <;> by_cases hdr : dr > 0 <;>
-      simp [hdr] at hN1 hN2 hN3 hdrop hsingle ⊢ <;> omega
+      simp [hdr] at hN1 hN3 hdrop hsingle ⊢ <;> omega
 
 end success
 
